@@ -12,7 +12,7 @@ import (
 func init() {
 	register(&propDef{
 		ID:          "C16",
-		Explanation: "Ownership, pairing and reset rules for the set / record builders (encoding side: isDecoding == false), decided on SSA: (1) set.length is written only by the constructor (= SetHeaderLen), by ResetSet (= SetHeaderLen) and, in the two add functions, as length + record.GetRecordLength() paired one-to-one with append(s.records, sameRecord): on every path either both happen or neither (an error exit between them leaves a record that is not counted); GetSetLength returns that field; (2) R-RESET: every field of the set that any builder method writes (headerBuffer incl. its bytes, setType, records, length) is re-initialised by ResetSet, and the re-initialised values of headerBuffer / length / records equal the constructor's; (3) add-path equivalence: AddRecord is AddRecordWithExtraElements(elements, 0, templateID); the copying path adds every element of the slice in order through Record.AddInfoElement (which appends at fieldCount, increments it and adds GetLength()), the adopting path sets fieldCount = len(elements), adopts the slice and sums GetLength(); both template paths call the single addInfoElement primitive once per element in order and PrepareRecord exactly once; templateRecord.GetRecordLength() == len(buffer), dataRecord.GetRecordLength() == the accumulated len; (4) the record buffer and length accounting rules of C15 and the message assembly of C02 are imported. The copying add path executes AddInfoElement on every iteration (the call dominates every back edge); adopting constructors are reachable from the V2 API only. Not decided: byte identity for concrete element lists (implied by shared primitives, not computed); stale cached buffers after callers mutate element values (caller contract). Later additions: records of the copying path are constructed for len(elements) fields; nil is returned by an add function only after the append; the whole element list is serialized into make(d.len); template elements are empty. Round-five additions: PrepareRecord does not cut the record buffer back; the cached record buffer is reused only when its length equals the accounted length.",
+		Explanation: "Ownership, pairing and reset rules for the set / record builders (encoding side: isDecoding == false), decided on SSA: (1) set.length is written only by the constructor (= SetHeaderLen), by ResetSet (= SetHeaderLen) and, in the two add functions, as length + record.GetRecordLength() paired one-to-one with append(s.records, sameRecord): on every path either both happen or neither (an error exit between them leaves a record that is not counted); GetSetLength returns that field; (2) R-RESET: every field of the set that any builder method writes (headerBuffer incl. its bytes, setType, records, length) is re-initialised by ResetSet, and the re-initialised values of headerBuffer / length / records equal the constructor's; (3) add-path equivalence: AddRecord is AddRecordWithExtraElements(elements, 0, templateID); the copying path adds every element of the slice in order through Record.AddInfoElement (which appends at fieldCount, increments it and adds GetLength()), the adopting path sets fieldCount = len(elements), adopts the slice and sums GetLength(); both template paths call the single addInfoElement primitive once per element in order and PrepareRecord exactly once; templateRecord.GetRecordLength() == len(buffer), dataRecord.GetRecordLength() == the accumulated len; (4) the record buffer and length accounting rules of C15 and the message assembly of C02 are imported. The copying add path executes AddInfoElement on every iteration (the call dominates every back edge); adopting constructors are reachable from the V2 API only. Not decided: byte identity for concrete element lists (implied by shared primitives, not computed); stale cached buffers after callers mutate element values (caller contract). Later additions: records of the copying path are constructed for len(elements) fields; nil is returned by an add function only after the append; the whole element list is serialized into make(d.len); template elements are empty. Round-five additions: PrepareRecord does not cut the record buffer back; the cached record buffer is reused only when its length equals the accounted length. Round-seven addition: the buffer PrepareRecord stores back is always rooted in the buffer so far (a fresh slice discards the constructor's specifiers).",
 		Assume:      []string{"rules are evaluated for encoding builders; decoding sets deliberately start at length 0 and ResetSet leaves their length alone"},
 		Run:         runC16,
 	})
